@@ -112,6 +112,7 @@ package wire
 //@   ensures set.providerMap != nil && TMD[set.providerMap][tid(t)] ==> result.t != nil && (result.p != nil || result.v != nil || result.a != nil || result.f != nil)
 
 //@ fieldinv Provider.Out forall i :: 0 <= i && i < len(v) ==> v[i] != nil
+//@ fieldinv Provider.Pkg v != nil
 //@ fieldinv Value.Out v != nil
 //@ fieldinv Field.Out forall i :: 0 <= i && i < len(v) ==> v[i] != nil
 //@ fieldinv Field.Parent v != nil
@@ -324,3 +325,35 @@ package wire
 //@   loop 1 invariant forall k :: 0 <= k && k < len(pendingVars) ==> pendingVars[k].typeInfo != nil && pendingVars[k].expr != nil
 //@   loop 1 invariant [C09] len(ec.errors) == 0 ==> forall k :: 0 <= k && k < done ==> (calls[k].hasCleanup ==> injectSig.cleanup) && (calls[k].hasErr ==> injectSig.err)
 //@   props C09
+
+// ---------------------------------------------------------------------------
+// analyze.go: verifyArgsUsed (C08)
+// ---------------------------------------------------------------------------
+//@ define hitImp(used []*providerSetSrc, x *ProviderSet) = exists u :: 0 <= u && u < len(used) && used[u].Import == x
+//@ define allImp(set *ProviderSet, used []*providerSetSrc, n int) = forall i :: 0 <= i && i < n ==> hitImp(used, set.Imports[i])
+//@ define hitProv(used []*providerSetSrc, x *Provider) = exists u :: 0 <= u && u < len(used) && used[u].Provider == x
+//@ define allProv(set *ProviderSet, used []*providerSetSrc, n int) = forall i :: 0 <= i && i < n ==> hitProv(used, set.Providers[i])
+//@ define hitVal(used []*providerSetSrc, x *Value) = exists u :: 0 <= u && u < len(used) && used[u].Value == x
+//@ define allVal(set *ProviderSet, used []*providerSetSrc, n int) = forall i :: 0 <= i && i < n ==> hitVal(used, set.Values[i])
+//@ define hitBind(used []*providerSetSrc, x *IfaceBinding) = exists u :: 0 <= u && u < len(used) && used[u].Binding == x
+//@ define allBind(set *ProviderSet, used []*providerSetSrc, n int) = forall i :: 0 <= i && i < n ==> hitBind(used, set.Bindings[i])
+//@ define hitFld(used []*providerSetSrc, x *Field) = exists u :: 0 <= u && u < len(used) && used[u].Field == x
+//@ define allFld(set *ProviderSet, used []*providerSetSrc, n int) = forall i :: 0 <= i && i < n ==> hitFld(used, set.Fields[i])
+//@ func verifyArgsUsed
+//@   modifies nothing
+//@   ensures [C08] len(result) == 0 <==> allImp(set, used, len(set.Imports)) && allProv(set, used, len(set.Providers)) && allVal(set, used, len(set.Values)) && allBind(set, used, len(set.Bindings)) && allFld(set, used, len(set.Fields))
+//@   loop 1 invariant [C08] len(errs) == 0 <==> allImp(set, used, done)
+//@   loop 2 invariant [C08] len(errs) == 0 <==> allImp(set, used, done1)
+//@   loop 2 invariant [C08] forall u :: 0 <= u && u < done ==> used[u].Import != imp
+//@   loop 3 invariant [C08] len(errs) == 0 <==> allImp(set, used, len(set.Imports)) && allProv(set, used, done)
+//@   loop 4 invariant [C08] len(errs) == 0 <==> allImp(set, used, len(set.Imports)) && allProv(set, used, done3)
+//@   loop 4 invariant [C08] forall u :: 0 <= u && u < done ==> used[u].Provider != p
+//@   loop 5 invariant [C08] len(errs) == 0 <==> allImp(set, used, len(set.Imports)) && allProv(set, used, len(set.Providers)) && allVal(set, used, done)
+//@   loop 6 invariant [C08] len(errs) == 0 <==> allImp(set, used, len(set.Imports)) && allProv(set, used, len(set.Providers)) && allVal(set, used, done5)
+//@   loop 6 invariant [C08] forall u :: 0 <= u && u < done ==> used[u].Value != v
+//@   loop 7 invariant [C08] len(errs) == 0 <==> allImp(set, used, len(set.Imports)) && allProv(set, used, len(set.Providers)) && allVal(set, used, len(set.Values)) && allBind(set, used, done)
+//@   loop 8 invariant [C08] len(errs) == 0 <==> allImp(set, used, len(set.Imports)) && allProv(set, used, len(set.Providers)) && allVal(set, used, len(set.Values)) && allBind(set, used, done7)
+//@   loop 8 invariant [C08] forall u :: 0 <= u && u < done ==> used[u].Binding != b
+//@   loop 9 invariant [C08] len(errs) == 0 <==> allImp(set, used, len(set.Imports)) && allProv(set, used, len(set.Providers)) && allVal(set, used, len(set.Values)) && allBind(set, used, len(set.Bindings)) && allFld(set, used, done)
+//@   loop 10 invariant [C08] len(errs) == 0 <==> allImp(set, used, len(set.Imports)) && allProv(set, used, len(set.Providers)) && allVal(set, used, len(set.Values)) && allBind(set, used, len(set.Bindings)) && allFld(set, used, done9)
+//@   loop 10 invariant [C08] forall u :: 0 <= u && u < done ==> used[u].Field != f
